@@ -3,15 +3,25 @@
    LF line ends, blank and comment lines inside the value: every entry of an error-free document is
    one.  No reference to Grammar.v. *)
 From V.model Require Import Base Deb822Lex Deb822Parse Deb822Edit Deb822Wrap WrapSpec.
+From V.model Require Export WrapTokSpec.
 From V.proofs Require Import BaseP Deb822WrapP.
 
-(* ---------------------------------------------------------------- token lists *)
-Definition ckind (k : kind) : bool := match k with WHITESPACE | VALUE | NEWLINE | COMMENT => true | _ => false end.
-Definition is_ctok (t : token) : bool := ckind (fst t).
-Definition elems (T : list token) : list tree := map tok_elem T.
-Definition strippable (t : token) : bool := is_nl_or_ws_tok t.
-(* nothing to strip at the end *)
-Definition stripped (T : list token) : Prop := match rev T with [] => True | t :: _ => strippable t = false end.
+(* proof-internal definitions (the statements' vocabulary is in model/WrapTokSpec.v) *)
+Definition nl_tok : token := (NEWLINE, [10%N]).
+Definition sp_tok : token := (WHITESPACE, [32%N]).
+Definition group_ok (g : list tree * tree) : Prop := forallb loose (fst g) = true /\ loose (snd g) = false.
+(* the loose tokens after the last entry, terminated *)
+Definition term_tr (tr : list tree) : list tree :=
+  match rev tr with Tok COMMENT _ :: _ => tr ++ [Tok NEWLINE [10%N]] | _ => tr end.
+(* a canonical paragraph: groups whose entries are fixed points of the entry step *)
+Definition canon_pgroups (ind : indentation) (iel : bool) (mll : option N) (esort : option (tree -> tree -> comparison)) (G : list (list tree * tree)) : Prop :=
+  (forall g, In g G -> group_ok g /\ entry_ok ind (snd g) = true /\ e_out ind iel mll (snd g) = snd g) /\
+  match option_map on_snd esort with Some e => lsorted e G | None => True end.
+Definition dgroup_ok (ind : indentation) (g : list tree * tree) : Prop := forallb cline (fst g) = true /\ para_ok ind (snd g) = true.
+(* terminating the last comment line *)
+Definition term_lines (tr : list tree) : list tree :=
+  match rev tr with [] => [] | x :: r => rev r ++ [ensure_nl x] end.
+
 
 Lemma is_nl_or_ws_elem t : is_nl_or_ws (tok_elem t) = is_nl_or_ws_tok t.
 Proof. destruct t; reflexivity. Qed.
@@ -19,7 +29,6 @@ Proof. destruct t; reflexivity. Qed.
 Lemma drop_while_elems T : drop_while is_nl_or_ws (elems T) = elems (drop_while is_nl_or_ws_tok T).
 Proof. induction T as [|t r IH]; [reflexivity|]. cbn [elems map drop_while]. rewrite is_nl_or_ws_elem. destruct (is_nl_or_ws_tok t); [exact IH|reflexivity]. Qed.
 
-Definition stripT (T : list token) : list token := rev (drop_while is_nl_or_ws_tok (rev T)).
 Lemma strip_trailing_elems T : strip_trailing (elems T) = elems (stripT T).
 Proof. unfold strip_trailing, stripT. unfold elems at 1. rewrite <- map_rev. fold (elems (rev T)). rewrite (drop_while_elems (rev T)). unfold elems. rewrite map_rev. reflexivity. Qed.
 
@@ -72,10 +81,6 @@ Qed.
 Lemma drop_while_head_tok T : match drop_while is_nl_or_ws_tok T with [] => True | t :: _ => is_nl_or_ws_tok t = false end.
 Proof. induction T as [|t r IH]; [exact I|]. cbn [drop_while]. destruct (is_nl_or_ws_tok t) eqn:E; [exact IH|exact E]. Qed.
 
-(* ---------------------------------------------------------------- rebuild_value, on any stripped token list *)
-Definition cfilt (c : tree) : bool := ckind (ekind c).
-Definition nl_tok : token := (NEWLINE, [10%N]).
-Definition sp_tok : token := (WHITESPACE, [32%N]).
 
 Lemma cfilt_elems T : forallb is_ctok T = true -> filter cfilt (elems T) = elems T.
 Proof.
@@ -178,24 +183,7 @@ Proof.
         rewrite Hdown2, Eemit. cbn [fst snd]. rewrite Hlead_elem. reflexivity.
 Qed.
 
-(* ---------------------------------------------------------------- Entry::wrap_and_sort on a token entry *)
-Definition tkind (k : kind) : bool := match k with KEY | COLON | INDENT => true | _ => ckind k end.
-Definition is_tok_elem (c : tree) : bool := match c with Tok k _ => tkind k | Node _ _ => false end.
-(* an ENTRY node all of whose children are tokens: KEY, COLON, WHITESPACE, VALUE, NEWLINE, INDENT,
-   COMMENT in any arrangement (every entry of a document read without errors is like that) *)
-Definition token_entry (e : tree) : bool :=
-  match e with Node ENTRY cs => forallb is_tok_elem cs | _ => false end.
 
-Definition built_of (cs : list tree) : list tree :=
-  flat_map (fun c => match c with Tok KEY s => [Tok KEY s] | Tok COLON _ => [Tok COLON [58%N]] | _ => [] end) cs.
-Fixpoint ind_after (ind : indentation) (cs : list tree) : indentation :=
-  match cs with
-  | [] => ind
-  | Tok KEY s :: r => ind_after (match ind with FieldNameLength => Spaces (utf8_size s) | _ => ind end) r
-  | _ :: r => ind_after ind r
-  end.
-Definition toks_of (cs : list tree) : list token :=
-  flat_map (fun c => match c with Tok k s => [(k, s)] | Node _ _ => [] end) cs.
 
 Lemma ews_scan_tokens cs : forall ind b c, forallb is_tok_elem cs = true ->
   ews_scan cs ind b c = Ok (ind_after ind cs, b ++ built_of cs, c ++ filter cfilt cs).
@@ -232,14 +220,6 @@ Proof.
   destruct (drop_while_suffix is_nl_or_ws_tok (rev T)) as (a & _ & E). apply H. apply in_rev. rewrite E. apply in_or_app. right. exact Hx.
 Qed.
 
-(* the indentation width Entry::wrap_and_sort ends up with, the tokens of the value, the key length *)
-Definition entry_n (ind : indentation) (cs : list tree) : N :=
-  match ind_after ind cs with Spaces i => i | FieldNameLength => 1%N end.
-Definition entry_T (cs : list tree) : list token := stripT (toks_of (filter cfilt cs)).
-Definition entry_kl (cs : list tree) : N := match entry_key (Node ENTRY cs) with Some k => utf8_size k | None => 0%N end.
-(* ... and the entry it returns *)
-Definition entry_out (ind : indentation) (iel : bool) (mll : option N) (cs : list tree) : tree :=
-  Node ENTRY (built_of cs ++ rebuild_value fixed (entry_T cs) (entry_kl cs) (entry_n ind cs) iel mll).
 
 Theorem entry_ws_tokens ind iel mll cs : forallb is_tok_elem cs = true -> (entry_n ind cs =? 0)%N = false ->
   entry_ws fixed ind iel mll None (Node ENTRY cs) = Ok (entry_out ind iel mll cs).
@@ -250,13 +230,6 @@ Proof.
   unfold elems. rewrite res_map_into_token. cbn [bind]. reflexivity.
 Qed.
 
-(* ---- the shape of what rebuild_value emits ---- *)
-Definition out_elem (n : N) (c : tree) : bool :=
-  match c with
-  | Tok INDENT s => str_eqb s (spaces n)
-  | Tok k _ => ckind k
-  | Node _ _ => false
-  end.
 
 Lemma out_elem_tok n t : is_ctok t = true -> out_elem n (tok_elem t) = true.
 Proof. destruct t as [k s]. unfold is_ctok. cbn [fst tok_elem snd out_elem]. destruct k; try discriminate; intros _; reflexivity. Qed.
@@ -366,9 +339,6 @@ Proof.
   rewrite ET, E2. reflexivity.
 Qed.
 
-(* ---- the lines of the value and the comment lines inside it are kept, in order ---- *)
-Definition vk (k : kind) : bool := match k with VALUE | COMMENT => true | _ => false end.
-Definition ktx (k : kind) (cs : list tree) : list str := token_texts_of_kind k (Node ENTRY cs).
 
 Lemma ktx_app k a b : ktx k (a ++ b) = ktx k a ++ ktx k b.
 Proof. unfold ktx, token_texts_of_kind. cbn [children]. apply flat_map_app. Qed.
@@ -456,27 +426,7 @@ Proof.
   unfold entry_key. rewrite keys_app, keys_built, (out_keys _ _ Hout), app_nil_r. reflexivity.
 Qed.
 
-(* ---------------------------------------------------------------- Paragraph::wrap_and_sort on a token paragraph *)
-(* the children of a paragraph read without errors: entries (of tokens), and comment lines -- a
-   COMMENT token and the NEWLINE token that ends it *)
-Definition loose (c : tree) : bool := match c with Tok COMMENT _ | Tok NEWLINE _ => true | _ => false end.
-Definition entry_ok (ind : indentation) (c : tree) : bool :=
-  token_entry c && negb (entry_n ind (children c) =? 0)%N.
-Definition pchild_ok (ind : indentation) (c : tree) : bool := loose c || entry_ok ind c.
 
-(* every entry with the loose tokens in front of it; the loose tokens after the last entry *)
-Fixpoint p_groups (cs : list tree) (cur : list tree) : list (list tree * tree) * list tree :=
-  match cs with
-  | [] => ([], cur)
-  | c :: r => if loose c then p_groups r (cur ++ [c])
-              else let '(gs, tr) := p_groups r [] in ((cur, c) :: gs, tr)
-  end.
-Definition p_ungroup (gs : list (list tree * tree)) (tr : list tree) : list tree :=
-  concat (map (fun g => fst g ++ [snd g]) gs) ++ tr.
-Definition e_out (ind : indentation) (iel : bool) (mll : option N) (e : tree) : tree := entry_out ind iel mll (children e).
-(* what Paragraph::wrap_and_sort makes of the children: groups sorted stably as units, entries rebuilt *)
-Definition p_out (ind : indentation) (iel : bool) (mll : option N) (esort : option (tree -> tree -> comparison)) (cs : list tree) : list tree :=
-  p_ungroup (map (fun g => (fst g, e_out ind iel mll (snd g))) (sort_opt (option_map on_snd esort) (fst (p_groups cs [])))) (snd (p_groups cs [])).
 
 Lemma entry_ok_shape ind c : entry_ok ind c = true ->
   exists cs, c = Node ENTRY cs /\ forallb is_tok_elem cs = true /\ (entry_n ind cs =? 0)%N = false.
@@ -537,7 +487,6 @@ Proof.
   cbn [app p_groups]. rewrite H1, (IH X _ H2), <- app_assoc. reflexivity.
 Qed.
 
-Definition group_ok (g : list tree * tree) : Prop := forallb loose (fst g) = true /\ loose (snd g) = false.
 
 Lemma p_groups_ungroup gs tr : forall cur, (forall g, In g gs -> group_ok g) -> forallb loose tr = true ->
   p_groups (p_ungroup gs tr) cur =
@@ -560,12 +509,6 @@ Proof.
   unfold entry_ok. rewrite B, Hn. unfold token_entry, entry_out in *. cbn [children] in A. rewrite A. reflexivity.
 Qed.
 
-Definition esort_ok (ind : indentation) (iel : bool) (mll : option N) (esort : option (tree -> tree -> comparison)) : Prop :=
-  match esort with
-  | Some e => cmp_consistent e /\
-              (forall a b, entry_ok ind a = true -> entry_ok ind b = true -> e (e_out ind iel mll a) (e_out ind iel mll b) = e a b)
-  | None => True
-  end.
 
 Theorem p_out_idem ind iel mll esort cs : forallb (pchild_ok ind) cs = true -> esort_ok ind iel mll esort ->
   forallb (pchild_ok ind) (p_out ind iel mll esort cs) = true /\
@@ -601,39 +544,7 @@ Proof.
     rewrite Hs. f_equal. rewrite <- (map_id G) at 2. apply map_ext_in. intros g Hg'. destruct (HG g Hg') as (_ & _ & B). rewrite B. destruct g; reflexivity.
 Qed.
 
-(* ---------------------------------------------------------------- Deb822::wrap_and_sort on a token document *)
-(* the children of the root of a document read without errors: paragraphs (as above) and
-   EMPTY_LINE nodes made of tokens (a blank line; a comment line) *)
-Definition is_token (c : tree) : bool := match c with Tok _ _ => true | Node _ _ => false end.
-Definition rchild_ok (ind : indentation) (c : tree) : bool :=
-  match c with
-  | Node PARAGRAPH ps => forallb (pchild_ok ind) ps
-  | Node EMPTY_LINE ts => forallb is_token ts
-  | _ => false
-  end.
-Definition is_para_node (c : tree) : bool := match c with Node PARAGRAPH _ => true | _ => false end.
-Definition comment_line (c : tree) : bool := existsb (fun x => negb (is_blank_kind x)) (children c).
 
-(* every paragraph with the comment lines in front of it (blank lines dropped); those after the last *)
-Fixpoint d_groups (rs : list tree) (cur : list tree) : list (list tree * tree) * list tree :=
-  match rs with
-  | [] => ([], cur)
-  | c :: r => if is_para_node c then let '(gs, tr) := d_groups r [] in ((cur, c) :: gs, tr)
-              else d_groups r (if comment_line c then cur ++ [c] else cur)
-  end.
-Fixpoint d_emit (first : bool) (gs : list (list tree * tree)) : list tree :=
-  match gs with
-  | [] => []
-  | g :: r => (if first then [] else [blank_line]) ++ fst g ++ snd g :: d_emit false r
-  end.
-Definition pp_out (ind : indentation) (iel : bool) (mll : option N) (esort : option (tree -> tree -> comparison)) (p : tree) : tree :=
-  ensure_nl (Node PARAGRAPH (p_out ind iel mll esort (children p))).
-(* what Deb822::wrap_and_sort returns: groups sorted stably as units, every paragraph reformatted
-   and terminated, one blank line between them, the result terminated *)
-Definition d_out (ind : indentation) (iel : bool) (mll : option N) (psort esort : option (tree -> tree -> comparison)) (rs : list tree) : tree :=
-  ensure_nl (Node ROOT (d_emit true (map (fun g => (fst g, pp_out ind iel mll esort (snd g)))
-                                         (sort_opt (option_map on_snd psort) (fst (d_groups rs []))))
-                        ++ snd (d_groups rs []))).
 
 Lemma dws_scan_tok ind rs : forall cur acc, forallb (rchild_ok ind) rs = true ->
   dws_scan fixed rs cur acc = Ok (acc ++ fst (d_groups rs cur), snd (d_groups rs cur)).
@@ -718,9 +629,6 @@ Proof.
   rewrite E, ensure_nl_node, app_assoc, enl_snoc. reflexivity.
 Qed.
 
-(* the loose tokens after the last entry, terminated *)
-Definition term_tr (tr : list tree) : list tree :=
-  match rev tr with Tok COMMENT _ :: _ => tr ++ [Tok NEWLINE [10%N]] | _ => tr end.
 
 Lemma term_tr_loose tr : forallb loose tr = true -> forallb loose (term_tr tr) = true.
 Proof. intros H. unfold term_tr. destruct (rev tr) as [|x r]; [exact H|]. destruct x as [k s|]; [destruct k|]; try exact H. rewrite forallb_app, H. reflexivity. Qed.
@@ -735,10 +643,6 @@ Proof.
   intros k' s' r' E'. rewrite rev_app_distr in E'. cbn [rev app] in E'. injection E' as <- _ _. discriminate.
 Qed.
 
-(* a canonical paragraph: groups whose entries are fixed points of the entry step *)
-Definition canon_pgroups (ind : indentation) (iel : bool) (mll : option N) (esort : option (tree -> tree -> comparison)) (G : list (list tree * tree)) : Prop :=
-  (forall g, In g G -> group_ok g /\ entry_ok ind (snd g) = true /\ e_out ind iel mll (snd g) = snd g) /\
-  match option_map on_snd esort with Some e => lsorted e G | None => True end.
 
 Lemma p_out_canon_fix ind iel mll esort G tr : canon_pgroups ind iel mll esort G -> forallb loose tr = true ->
   p_out ind iel mll esort (p_ungroup G tr) = p_ungroup G tr.
@@ -808,12 +712,6 @@ Proof.
   split; reflexivity.
 Qed.
 
-(* ---------------------------------------------------------------- the document: a second application changes nothing *)
-(* a comment line kept by Deb822::wrap_and_sort: an EMPTY_LINE node of tokens with something else than blanks *)
-Definition cline (c : tree) : bool :=
-  match c with Node EMPTY_LINE ts => forallb is_token ts && comment_line c | _ => false end.
-Definition para_ok (ind : indentation) (c : tree) : bool :=
-  match c with Node PARAGRAPH ps => forallb (pchild_ok ind) ps | _ => false end.
 
 Lemma cline_props ind c : cline c = true -> is_para_node c = false /\ comment_line c = true /\ rchild_ok ind c = true.
 Proof.
@@ -840,7 +738,6 @@ Proof.
   destruct (cline_props FieldNameLength c H1) as (P1 & P2 & _). cbn [app d_groups]. rewrite P1, P2, (IH X _ H2), <- app_assoc. reflexivity.
 Qed.
 
-Definition dgroup_ok (ind : indentation) (g : list tree * tree) : Prop := forallb cline (fst g) = true /\ para_ok ind (snd g) = true.
 
 Lemma para_ok_node ind c : para_ok ind c = true -> is_para_node c = true.
 Proof. destruct c as [|k cs]; [discriminate|]. destruct k; try discriminate. reflexivity. Qed.
@@ -858,9 +755,6 @@ Proof.
     rewrite (IH false [] (fun y Hy => HG y (or_intror Hy)) Htr). destruct r as [|g2 r2]; [reflexivity|]. destruct g2; reflexivity.
 Qed.
 
-(* terminating the last comment line *)
-Definition term_lines (tr : list tree) : list tree :=
-  match rev tr with [] => [] | x :: r => rev r ++ [ensure_nl x] end.
 
 Lemma ensure_nl_cline c : cline c = true -> cline (ensure_nl c) = true /\ ensure_nl (ensure_nl c) = ensure_nl c.
 Proof.
@@ -891,13 +785,6 @@ Proof.
     + intros _ E. unfold term_lines. rewrite Er. rewrite Et at 1. rewrite app_assoc, enl_snoc, <- app_assoc. destruct x as [|k ts]; [discriminate|]. reflexivity.
 Qed.
 
-Definition psort_ok (ind : indentation) (iel : bool) (mll : option N) (psort esort : option (tree -> tree -> comparison)) : Prop :=
-  match psort with
-  | Some p => cmp_consistent p /\
-              (forall a b, para_ok ind a = true -> para_ok ind b = true ->
-                 p (pp_out ind iel mll esort a) (pp_out ind iel mll esort b) = p a b)
-  | None => True
-  end.
 
 Lemma d_emit_snoc G g : forall first, d_emit first (G ++ [g]) =
   d_emit first G ++ (if first && match G with [] => true | _ => false end then [] else [blank_line]) ++ fst g ++ [snd g].
@@ -976,10 +863,6 @@ Proof.
     unfold R. rewrite ensure_nl_node. cbn [children]. rewrite (T3 ltac:(discriminate)). reflexivity.
 Qed.
 
-(* ---------------------------------------------------------------- summary statements *)
-(* the document read without errors, as far as these theorems need it *)
-Definition token_doc (ind : indentation) (t : tree) : bool :=
-  match t with Node ROOT rs => forallb (rchild_ok ind) rs | _ => false end.
 
 Theorem token_doc_ws ind iel mll psort esort t : token_doc ind t = true ->
   esort_ok ind iel mll esort -> psort_ok ind iel mll psort esort ->
